@@ -150,6 +150,11 @@ def gen_obsreg_lock(repo):
         body = ob[k:e + 1]
         calls = [m.start() for m in re.finditer(r'->\s*callback\s*\(', ob)]
         inloop = bool(calls) and all(k < c < e for c in calls) and loop.group(1) + '->callback' in re.sub(r'\s+', '', body)
+    if g and loop and g.start() < loop.start() and depth_at(ob, g.start()) == 1 and not inloop:
+        # guard and loop are where they were, but the invocation is not written out inside the loop body any more (a helper, a
+        # template): the registry schedules under the scheduler observe directly that every callback runs with callbacks_m_
+        # held - a change of shape; the committed fact is kept and the replay of every schedule decides
+        raise X.ShapeChanged('ObservableRegistry::Observe: the callback invocation is not written inside the loop over callbacks_ any more')
     erase = all(re.search(r'callbacks_\.erase\s*\(', fns[n]) for n in ('RemoveCallback', 'CleanupCallback'))
     push = bool(re.search(r'callbacks_\.(push_back|emplace_back)\s*\(', fns['AddCallback']))
     b2l = lambda v: 'true' if v else 'false'
